@@ -6,7 +6,7 @@ HOOK_COMMITS = ["1ce4350", "cf6c482"]
 
 SYM_NOTE = ("Trusted: the reading of the statement written in spec/Val.tla, Shape.tla, TensorOps.tla, Components.tla, Prog.tla (derivatives only by symbolic differentiation of definitions; closed forms cross-checked by TLC on rational instances); the float64 term evaluator and its first-order error bound (Go math on both sides). Shapes / arguments exhaustive within the stated grid; element values sampled (seeded, boundary values included), not exhaustive.")
 SYM_TECH = "TLA+ spec evaluated by TLC as exhaustive-in-bounds case generator; spec -> code replay with float64 assignments"
-TWINS = (" Every replayed case is additionally executed in three twin runs whose tensors, flags and gradients must be bit-identical to the plain run: read-only API calls (Slice, Reshape family, Transpose, reductions, Concat / Patch with the tensor as operand ...) interleaved after every instruction, the tensors those calls return being re-read at the end; a second epoch on the same tensor and component objects after ResetGradContext, following a back-propagated first epoch and following an untracked first epoch. Every instruction is framed by a bit-level snapshot of all existing tensors (shape, elements, gradient context). All replays run in worker processes that enter the library from one goroutine only; the back-propagation of every case is also recorded through the library's trace sink and validated by TLC (Trace_BPStruct). Differential runs that realise another property's scenario (all inputs untracked: C08; caller slices overwritten: C10) are made by that property's check only.")
+TWINS = (" Every replayed case is additionally executed in four twin runs whose tensors, flags and gradients must be bit-identical to the plain run: the inputs rebuilt with the same elements through other constructions (patched Zeros / Full tensor, concatenated slices, double transpose, reshape round trip, same-shape broadcast); read-only API calls (Slice, Reshape family, Transpose, reductions, Concat / Patch with the tensor as operand ...) interleaved after every instruction, the tensors those calls return being re-read at the end; a second epoch on the same tensor and component objects after ResetGradContext, following a back-propagated first epoch and following an untracked first epoch. Every instruction is framed by a bit-level snapshot of all existing tensors (shape, elements, gradient context). All replays run in worker processes that enter the library from one goroutine only; the back-propagation of every case is also recorded through the library's trace sink and validated by TLC (Trace_BPStruct). Differential runs that realise another property's scenario (all inputs untracked: C08; caller slices overwritten: C10) are made by that property's check only.")
 BIG = " Tensors of 1000-16000 elements are covered through parametric templates (spec/Big.tla): one term over the output position per result, proved by TLC (ASSUME TemplatesAgree / GradTemplatesAgree) to unroll to the declarative definition at every position of every shape of the small grid."
 
 def sym(text, design, extra_note=""):
